@@ -44,7 +44,7 @@ C19_ReturnsInTimeObs == Is("Call") => Cur.dur <= Cur.timeout + Margin
 C19_NoPanicObs == Is("Call") => Cur.outcome \in {"ok", "err"}
 C19_TrimmedOutput == Is("Call") /\ Cur.outcome = "ok" => Cur.trimmed
 \* conformance with the call machine of Exec.tla: which outcome each failure mode must have
-WrapFail == {"garbage", "digits", "empty", "exit3", "errnonl", "okexit", "sleep"}
+WrapFail == {"garbage", "digits", "empty", "exit3", "errnonl", "okexit", "sleep", "blank", "crlf", "tab"}
 MustFail == {"exit3", "exit1silent", "killed", "notExecutable", "badFormat", "missing", "badInterpreter",
              "sleepPastDeadline", "execSleep", "ignoresTerm", "hugeThenSleep",
              "stderrNoNewline", "stderrBlankLines", "stderrHuge", "stderrBinary", "killedWithStderr", "termSelf",
@@ -54,14 +54,16 @@ MustFail == {"exit3", "exit1silent", "killed", "notExecutable", "badFormat", "mi
             \cup {"fan.setPwm:" \o m : m \in {"exit3", "errnonl", "okexit", "sleep"}}
 MustSucceed == {"ok", "okTrim", "empty", "garbage", "huge", "okWithStderr", "okNoNewline", "readsStdin"}
                \cup {pfx \o ":ok" : pfx \in {"sensor", "fan.getPwm", "fan.getRpm", "fan.setPwm"}}
-               \cup {"fan.setPwm:" \o m : m \in {"garbage", "digits", "empty", "nan"}}
+               \cup {"fan.setPwm:" \o m : m \in {"garbage", "digits", "empty", "nan", "blank", "crlf", "tab"}}
                \cup {"sensoravg:" \o m : m \in WrapFail \cup {"ok", "grandchild", "nan"}}
 C19_Conforms == Is("Call") =>
   /\ (Cur.mode \in MustFail => Cur.outcome = "err")
-  /\ (Cur.mode \in MustSucceed /\ Cur.timeout >= 1000 => Cur.outcome = "ok")
   /\ (Cur.mode \in {"ok", "okWithStderr", "okNoNewline", "readsStdin", "sensor:ok", "fan.getPwm:ok", "fan.getRpm:ok"} /\ Cur.outcome = "ok" => Cur.sample = "42")
   /\ (Cur.mode = "okTrim" /\ Cur.outcome = "ok" => Cur.sample = " 17.5 ")
 
+\* conformance only (drift): a healthy command succeeds - on a heavily loaded machine it may not (pipes not closed within the
+\* WaitDelay while the process forks a lot), and the property allows "an error"
+C19_HealthySucceeds == Is("Call") /\ Cur.mode \in MustSucceed /\ Cur.timeout >= 1000 => Cur.outcome = "ok"
 Report == l = N + 1 => PrintT(<<"TRACE-DONE", N, "DRIFT", <<>>>>)
 TraceAccepted == TLCGet("stats").diameter = N + 1
 ==============================================================================
